@@ -37,6 +37,64 @@ fn method_of(m: &str) -> u8 {
     }
 }
 
+/// `%XX` escapes in generated names stand for the UTF-8 bytes of non-ASCII characters.
+fn decode_name(s: &str) -> String {
+    let b = s.as_bytes();
+    let mut out = Vec::with_capacity(b.len());
+    let mut i = 0;
+    while i < b.len() {
+        if b[i] == b'%' && i + 2 < b.len() && s.is_char_boundary(i + 1) && s.is_char_boundary(i + 3) {
+            if let Ok(v) = u8::from_str_radix(&s[i + 1..i + 3], 16) {
+                out.push(v);
+                i += 3;
+                continue;
+            }
+        }
+        out.push(b[i]);
+        i += 1;
+    }
+    String::from_utf8(out).unwrap_or_else(|_| tool_error(&format!("name {s} is not UTF-8 after decoding")))
+}
+
+/// Length of the zlib stream flate2 (default level, as wow-mpq uses it) produces for `d`.
+fn zlib_len(d: &[u8]) -> usize {
+    use std::io::Write;
+    let mut e = flate2::write::ZlibEncoder::new(Vec::new(), flate2::Compression::default());
+    e.write_all(d).unwrap();
+    e.finish().map(|v| v.len()).unwrap_or(usize::MAX)
+}
+
+/// Content class "edge": the first unit (sector or whole single-unit file) is text followed by just enough
+/// random bytes that its zlib stream is EXACTLY one byte shorter than the unit: with the method byte the
+/// compressed form is as long as the raw one, so a conformant writer must store the unit raw (a unit whose
+/// stored size equals its size is raw for every reader). Returns (content, found).
+fn edge_content(len: usize, ssize: usize, rng: &mut Rng) -> (Vec<u8>, bool) {
+    let u = len.min(ssize);
+    let text = gen_content("text", len, rng);
+    let rnd = rng.bytes(u);
+    let build = |r: usize| -> Vec<u8> {
+        let mut v = text.clone();
+        v[u - r..u].copy_from_slice(&rnd[..r]);
+        v
+    };
+    let (mut lo, mut hi) = (0usize, u);
+    while lo < hi {
+        let mid = (lo + hi) / 2;
+        if zlib_len(&build(mid)[..u]) + 1 >= u {
+            hi = mid;
+        } else {
+            lo = mid + 1;
+        }
+    }
+    for r in lo.saturating_sub(16)..=(lo + 96).min(u) {
+        let v = build(r);
+        if zlib_len(&v[..u]) + 1 == u {
+            return (v, true);
+        }
+    }
+    (build(lo.min(u)), false)
+}
+
 fn bytes_json(b: &[u8]) -> Value {
     Value::Array(b.iter().map(|x| Value::from(*x)).collect())
 }
@@ -76,13 +134,18 @@ fn mode_write(cases: &[Value], trace: &Trace) {
             b = b.generate_crcs(true).attributes_option(wow_mpq::AttributesOption::None);
         }
         for (fi, f) in ga(c, "files").iter().enumerate() {
-            let name = gs(f, "name");
+            let name_s = decode_name(gs(f, "name"));
+            let name = name_s.as_str();
             let len = length_of(gs(f, "lc"), ssize);
             let mut rng = Rng::derive(seed, &format!("c02w:{id}:{fi}"));
-            let data = gen_content(gs(f, "cc"), len, &mut rng);
+            let (data, edge) = match gs(f, "cc") {
+                "edge" if len >= 32 => edge_content(len, ssize, &mut rng),
+                "edge" => (gen_content("mixed", len, &mut rng), false),
+                cc => (gen_content(cc, len, &mut rng), false),
+            };
             let m = method_of(gs(f, "meth"));
             files_json.push(json!({"name": name, "nb": bytes_json(name.as_bytes()), "len": len, "tok": tok(&data),
-                "data": bytes_json(&data), "meth": gs(f, "meth"), "enc": gs(f, "enc"), "lc": gs(f, "lc"), "cc": gs(f, "cc")}));
+                "data": bytes_json(&data), "edge": edge, "meth": gs(f, "meth"), "enc": gs(f, "enc"), "lc": gs(f, "lc"), "cc": gs(f, "cc")}));
             b = match gs(f, "enc") {
                 "plain" => b.add_file_data_with_options(data, name, m, false, 0),
                 "enc" => b.add_file_data_with_options(data, name, m, true, 0),
@@ -96,7 +159,8 @@ fn mode_write(cases: &[Value], trace: &Trace) {
         let res = outcome_str(&o);
         let bytes = if res == "ok" { std::fs::read(&path).unwrap_or_default() } else { Vec::new() };
         let _ = std::fs::remove_file(&path);
-        let absent = ["absent.txt", "Data\\File99.bin"];
+        // the last one differs from a (possibly present) name only in the case of a non-ASCII letter
+        let absent = ["absent.txt", "Data\\File99.bin", "Interface\\Glue\\caf\u{c9}.txt"];
         trace.ev(json!({"ev":"Archive","case":id,"dir":1,"ver":ver,"shift":shift,"listfile":lf,"crc":crc,"res":res,
             "alen": bytes.len(), "bytes": bytes_json(&bytes), "files": files_json,
             "absent": absent.iter().map(|a| json!({"name": a, "nb": bytes_json(a.as_bytes())})).collect::<Vec<_>>() }));
